@@ -595,6 +595,10 @@ func genC10(p *Plan, tier string) {
 	// one map order for the whole run (decisions are counted per request): a concurrent response
 	// that differs from the solo one is then a matter of interference, not of iteration order
 	order := randMapOrder(r)
+	if r.Bool(0.12) {
+		genC10Soak(p, r, g, order)
+		return
+	}
 	k := r.Range(2, 4)
 	if tier == "thorough" && r.Bool(0.3) {
 		k = r.Range(4, 6)
@@ -643,7 +647,6 @@ func genC10(p *Plan, tier string) {
 		}
 		return httpOp(id, it.body)
 	}
-	// group first in some runs: the very first use of lazily initialised state happens under concurrency
 	solo := func() {
 		for i, it := range items {
 			op := mk(fmt.Sprintf("solo%d", i), it)
@@ -651,7 +654,13 @@ func genC10(p *Plan, tier string) {
 			p.Ops = append(p.Ops, op)
 		}
 	}
-	solo()
+	// group first in some runs: lazily initialised and cached state is then filled under concurrency
+	// (its first use is inside the group), and the solo requests that follow are compared with the
+	// group's answers instead of the other way round
+	groupFirst := r.Bool(0.3)
+	if !groupFirst {
+		solo()
+	}
 	groups := r.Range(1, 2)
 	if tier == "thorough" {
 		groups = r.Range(1, 4)
@@ -661,12 +670,75 @@ func genC10(p *Plan, tier string) {
 		for i, it := range items {
 			t := mk(fmt.Sprintf("grp%d.t%d", gi, i), it)
 			t.Expect = &Expect{SameAs: fmt.Sprintf("solo%d", i)}
+			if groupFirst && gi == 0 {
+				t.Expect = &Expect{}
+			}
 			if it.get {
 				t.Expect.Schema = true
 			}
 			grp.Tasks = append(grp.Tasks, t)
 		}
 		p.Ops = append(p.Ops, grp)
+		if groupFirst && gi == 0 {
+			for i, it := range items {
+				op := mk(fmt.Sprintf("solo%d", i), it)
+				op.MapOrder = order
+				op.Expect = &Expect{SameAs: fmt.Sprintf("grp0.t%d", i)}
+				if it.get {
+					op.Expect.Schema = true
+				}
+				p.Ops = append(p.Ops, op)
+			}
+		}
+	}
+}
+
+// genC10Soak: one request shape, many distinct criteria names, all inside one process: state that
+// components keep per key (lazily filled tables, caches with an eviction or reset path) is driven
+// through fill, hit and eviction while requests overlap - a cache that never fills is the classic
+// blind spot. Every group consists of fresh siblings of one valid request; each is also run alone
+// (before or after the group) and must be answered identically.
+func genC10Soak(p *Plan, r *Rand, g *Gen, order *MapOrder) {
+	p.Profile = "soak"
+	base := g.Valid()
+	groups := r.Range(5, 9)
+	k := r.Range(2, 4)
+	for gi := 0; gi < groups; gi++ {
+		var bodies [][]byte
+		for i := 0; i < k; i++ {
+			sib := RenameCriteria(CloneJ(base.Body).(map[string]interface{}), fmt.Sprintf("_%d_%d", gi, i))
+			if r.Bool(0.3) {
+				sib["biasApplyRandomSeed"] = float64(r.Range(0, 1000))
+			}
+			bodies = append(bodies, JSONBytes(sib))
+		}
+		groupFirst := r.Bool(0.7)
+		solo := func() {
+			for i, b := range bodies {
+				op := httpOp(fmt.Sprintf("solo%d.%d", gi, i), b)
+				op.MapOrder = order
+				if groupFirst {
+					op.Expect = &Expect{SameAs: fmt.Sprintf("grp%d.t%d", gi, i)}
+				}
+				p.Ops = append(p.Ops, op)
+			}
+		}
+		if !groupFirst {
+			solo()
+		}
+		grp := &Op{Kind: "group", ID: fmt.Sprintf("grp%d", gi), MapOrder: order, Sched: randSched(r)}
+		for i, b := range bodies {
+			t := httpOp(fmt.Sprintf("grp%d.t%d", gi, i), b)
+			t.Expect = &Expect{}
+			if !groupFirst {
+				t.Expect.SameAs = fmt.Sprintf("solo%d.%d", gi, i)
+			}
+			grp.Tasks = append(grp.Tasks, t)
+		}
+		p.Ops = append(p.Ops, grp)
+		if groupFirst {
+			solo()
+		}
 	}
 }
 
@@ -800,6 +872,11 @@ func Variant(p *Plan) *Plan {
 	index := map[string]int{}
 	for i, op := range c.Ops {
 		index[op.ID] = i
+		for _, t := range op.Tasks {
+			if t.ID != "" {
+				index[t.ID] = i
+			}
+		}
 	}
 	deps := make([][]int, n)
 	addDep := func(i int, id string) {
